@@ -4,6 +4,7 @@
      passive [max_ppm]            (max |H|^2 - 1) in ppm (<= 5000: RK45 default tolerance)
      filt    [ppt]                residual of out = ifft(fft(in) * ifftshift(H)) per polarisation
      energy  [excess_ppm]         (E_out / E_in - 1) in ppm, must be <= 5000
+     spectrum [dev_ppm]           uniform profile: deviation of |H|^2 from the closed form over the whole frequency grid
      bragg   [num, den, got_ppm]  |H(f_Bragg)|^2 in ppm against the lattice value num/den (5e-3: accuracy of RK45 at its default tolerances,
                                   the same allowance as for passivity; a first version allowed 2e-3 and raised a false alarm on the
                                   non-smooth profile 1-|z| at 2048 samples)
@@ -21,6 +22,9 @@ Clauses(e) ==
     [] e.kind = "filt" -> IF e.ppt > 1000 THEN {"output-is-input-filtered-by-H"} ELSE {}
     [] e.kind = "energy" -> IF e.excess_ppm > 5000 THEN {"energy-increased"} ELSE {}
     [] e.kind = "bragg" -> IF Abs(e.got_ppm * e.den - 1000000 * e.num) > 5000 * e.den THEN {"bragg-reflectivity-tanh2"} ELSE {}
+    \* uniform unchirped grating: max over the grid of | |H|^2 - sinh^2(g)/(cosh^2(g) - d^2/k^2) | (closed form evaluated by the harness in
+    \* floating point, binding E); 1.5e-2 = accuracy of RK45 at its default tolerances for kL <= 8 (measured <= 6.7e-3)
+    [] e.kind = "spectrum" -> IF e.dev_ppm > 15000 THEN {"uniform-spectrum-closed-form"} ELSE {}
     [] e.kind = "route" -> IF e.ppt > 1000000 THEN {"equivalent-specifications-differ"} ELSE {}
     [] e.kind = "shape" -> IF ~e.same THEN {"shape-not-preserved"} ELSE {}
 Bad == UNION {{<<i, c>> : c \in Clauses(Trace[i])} : i \in 1..Len(Trace)}
